@@ -47,7 +47,7 @@ Definition cfg_case := (str * option str * list str * list str * list (str * str
 
 Definition cfg_model_ok (c : cfg_case) : bool :=
   let '(text, defined, declared, _, deps, dry, _, (kind, _, after)) := c in
-  let '(r, a) := cfg_write requirement_name_cmp cfg_writer_guard dry text defined declared (mkdeps deps) in
+  let '(r, a) := cfg_write requirement_name_cmp cfg_last_line_form cfg_writer_guard dry text defined declared (mkdeps deps) in
   wres_matches r kind [] false && str_eqb a after.
 
 Definition cfg_spec_with (norm : str -> str) (c : cfg_case) : bool :=
@@ -57,9 +57,14 @@ Definition cfg_spec_with (norm : str -> str) (c : cfg_case) : bool :=
   | [], _ => N.eqb kind 0 && str_eqb after text
   | _, None => true    (* no newline-separated block located by the reference scan: judged by the re-parse only *)
   | _, Some k =>
+      (* the new lines follow line k, everything else is untouched; a last line without newline may be terminated,
+         and MUST be when it is line k itself (else the first new requirement is glued to it) *)
+      let L := readlines_lf (norm text) in
+      let T := match fix_last L with Some l => l | None => L end in
       N.eqb kind 2 &&
-      str_eqb after (if dry then text
-                     else writelines (cfg_after_spec (readlines_lf (norm text)) (N.to_nat k) needed))
+      (if dry then str_eqb after text
+       else str_eqb after (writelines (cfg_after_spec T (N.to_nat k) needed))
+            || ((S (N.to_nat k) <? length L)%nat && str_eqb after (writelines (cfg_after_spec L (N.to_nat k) needed))))
   end.
 Definition cfg_spec_ok : cfg_case -> bool := cfg_spec_with (fun t => t).
 Definition cfg_spec_ok_mod_nl : cfg_case -> bool := cfg_spec_with univ_nl.
